@@ -73,6 +73,10 @@ def tasks(tier, seed):
         lab = "x".join(map(str, lens))
         for order in ("asc", "desc"):
             out.append({"fn": "product", "kwargs": {"lens": lens, "order": order}, "label": f"product/{lab}/{order}", "caps": {"max_seconds": 300}})
+    for ko in itertools.permutations(range(3)):
+        out.append({"fn": "worker_pairing", "kwargs": {"keyorder": list(ko)}, "label": "worker/" + "".join(map(str, ko))})
+    for ko in ((0, 2), (2, 0), (1, 2), (2, 1), (0, 1), (1, 0)):
+        out.append({"fn": "worker_pairing", "kwargs": {"keyorder": list(ko)}, "label": "worker/" + "".join(map(str, ko))})
         out.append({"fn": "sequential", "kwargs": {"lens": lens}, "label": f"sequential/{lab}"})
     for layout in ([1], [1, 1], [2], [1, 2], [2, 1, 1], [1, 2, 2]):
         for rows in (1, 2, 3):
@@ -317,6 +321,53 @@ def custom(layout, rows):
     vx.prove(f"C05/parallel_array/custom/{lab}", vx.all_of(okp))
 
 
+WKEYS = ["pipeline.photon_collection.p.arguments.a", "pipeline.charge_generation.q.arguments.a", "pipeline.photon_collection.p.arguments.v"]
+
+
+def _worker_run(keyorder, values):
+    """Parallel path for one cell: dimension names, parameter array, then the function every dask worker executes."""
+    import vxprobes
+    from pyxel.exposure import Readout
+    from pyxel.observation import ParameterValues
+    from pyxel.observation.misc import ProductMode
+    from pyxel.observation.observation_dask import _run_pipelines_array_to_datatree
+
+    keys = [WKEYS[i] for i in keyorder]
+    dn = _dim_names(keys)
+    mode = ProductMode([ParameterValues(key=k, values=[values[k]]) for k in keys])
+    arr = mode.create_params(dim_names=dn)
+    cell = tuple(arr.values[(0,) * len(keys)])
+    seen = {}
+
+    def hook(d, tag, kw, rec):
+        seen[tag] = dict(kw)
+        if d.pixel._array is None:
+            d.pixel.array = np.zeros((2, 2))
+
+    vxprobes.reset(hook)
+    try:
+        _run_pipelines_array_to_datatree(params_tuple=cell, output_filename_suffix=None, dimension_names=dn, processor=_processor(), readout=Readout(times=[1.0]),
+                                         outputs=None, pipeline_seed=None, progressbar=False)
+    finally:
+        vxprobes.reset(None)
+    return keys, dn, seen
+
+
+def worker_pairing(keyorder):
+    """A dask worker receives one cell of the parameter array and pairs its values with the keys of the dimension-name mapping
+    positionally: every model must end up with the value requested for *its* key, whatever the declaration order."""
+    values = {k: vx.integer(f"x{i}") for i, k in enumerate(WKEYS)}
+    keys, dn, seen = _worker_run(keyorder, values)
+    lab = "".join(map(str, keyorder))
+    vx.prove(f"C05/worker/mapping_in_declaration_order/{lab}", list(dn) == keys and len(set(dn.values())) == len(keys))
+    ok = []
+    for k in keys:
+        _, grp, name, _, arg = k.split(".")
+        got = seen.get(name, {}).get(arg)
+        ok.append(got is values[k] or got == values[k])
+    vx.prove(f"C05/worker/each_model_gets_its_own_value/{lab}", vx.all_of(ok), seen=repr(seen)[:200])
+
+
 def dimnames():
     from pyxel.observation.observation import _get_short_dimension_names_new
     from pyxel.observation.parameter_values import ParameterType
@@ -367,6 +418,13 @@ def _replay_custom(oid, kwargs, model):
 
 def replay(oid, kwargs, model, data):
     fn = data["fn"]
+    if fn == "worker_pairing":
+        vals = {k: int(model.get(f"x{i}", 0)) for i, k in enumerate(WKEYS)}
+        if len(set(vals.values())) < len(vals):
+            vals = {k: 11 * (i + 1) for i, k in enumerate(WKEYS)}
+        keys, dn, seen = _worker_run(kwargs["keyorder"], vals)
+        got = {k: seen.get(k.split(".")[2], {}).get(k.split(".")[4]) for k in keys}
+        return got != {k: vals[k] for k in keys} or list(dn) != keys, {"requested": {k: vals[k] for k in keys}, "models_received": got, "dimension_names": dict(dn)}
     if fn == "custom":
         return _replay_custom(oid, kwargs, model)
     if fn == "sequential":
